@@ -297,8 +297,9 @@ ErrMissingSound == status = "errMissing" => MissingSeen
 \* ... and, when no name is missing, the depth error is raised iff some chain is longer than PropNested
 DepthIff == (status \in Terminal /\ ~MissingSeen) => ((status = "errDepth") <=> LongChain)
 MissingIff == (status \in Terminal /\ ~LongChain) => ((status = "errMissing") <=> MissingSeen)
-\* the outcome does not depend on the working directory for files (Chdir steps are invisible)
-Invs == TypeOK /\ Equiv /\ PrefixOK /\ Bounded /\ DepthCounter /\ ErrDepthSound /\ ErrMissingSound
+\* (with EnvChdir = TRUE all of these are checked under arbitrary interleaved Chdir steps: the outcome
+\*  does not depend on the working directory after the call has been made)
+Invs ==TypeOK /\ Equiv /\ PrefixOK /\ Bounded /\ DepthCounter /\ ErrDepthSound /\ ErrMissingSound
         /\ DepthIff /\ MissingIff
 
 \* every expansion that has been started comes to an end (the one liveness property of the suite)
